@@ -10,7 +10,7 @@ Theorem src_affinity_time g1 g2 s1 l1 e1 h1 s2 l2 e2 h2 :
   py_compute_bounds g1 = Ok (s1, l1, e1, h1) -> py_compute_bounds g2 = Ok (s2, l2, e2, h2) ->
   exists q, Source.compute_affinity_in_time g1 g2 = Ok q /\ q == affinity_time s1 e1 s2 e2.
 Proof.
-  intros H1 H2. unfold Source.compute_affinity_in_time. rewrite H1, H2. cbn [bind].
+  intros H1 H2. autounfold with src. rewrite H1, H2. cbn [bind].
   unfold affinity_time, py_div.
   set (i := pymax 0 (pymin e1 e2 - pymax s1 s2)).
   repeat break_step; eexists; (split; [reflexivity|]); try reflexivity; exfalso; q_hyps;
@@ -21,7 +21,7 @@ Theorem src_affinity_time_err g1 g2 :
   (exists e, py_compute_bounds g1 = Err e) \/ (exists e, py_compute_bounds g2 = Err e) ->
   exists e, Source.compute_affinity_in_time g1 g2 = Err e.
 Proof.
-  unfold Source.compute_affinity_in_time. intros [[e H]|[e H]].
+  autounfold with src. intros [[e H]|[e H]].
   - rewrite H. eexists; reflexivity.
   - destruct (py_compute_bounds g1) as [[[[a b] c] d]|e1]; [|eexists; reflexivity].
     rewrite H. eexists; reflexivity.
